@@ -1179,7 +1179,7 @@ func main() {
 	hxlib.Main(hxlib.Spec{
 		ID: "C35",
 		Rule: "each case is one whole term run through the real iiss4Reward.Calculate on real icstage/icreward states: 1-30 P-Reps (all enable statuses, with/without public key, zero bond, commission 0..100%), 3-23 voters (some are P-Reps, some vote for unregistered addresses) whose delegations/bonds add up to the P-Reps' totals, 0-24 (or 130-190) events at sorted offsets incl. 0, limit and the key-encoding boundaries 127/128/255/256/32767/32768 (vote deltas incl. full withdrawal, enable/disable/jail, P-Reps and voters appearing during the term), term lengths 1..43120, funds 0..5e24, all bond requirements; malformed streams: a voter overdrawing (calculation must fail) and P-Rep totals inconsistent with the voters (model must still reproduce every number); non-trivial = calculation succeeded, at least two positive credits and at least one event; distinct = distinct Coq case term",
-		Shard: 40,
+		Shard: 24,
 		Gen:   genAll, Replay: replay,
 	})
 }
